@@ -32,6 +32,10 @@ GEOMS = {
         dict(bs=16384, W=4, cut=512, boff=512, doff=None),
         dict(bs=512, W=4, cut=0, boff=512, doff=None),
         dict(bs=1 << 20, W=3, cut=4096 + 512, boff=512, doff=2 << 20, big=True),
+        # image type field: 1 dynamic, 2 fixed, 3 undo, 4 differencing -- the block map is authoritative for all of them
+        dict(bs=4096, W=3, cut=512, boff=512, doff=None, itype=2),
+        dict(bs=4096, W=3, cut=0, boff=1024, doff=8192, itype=4),
+        dict(bs=512, W=3, cut=0, boff=512, doff=None, itype=3),
         # blocks larger than 1 MiB (VirtualBox allows any power of two); whole-disk and multi-MiB requests over holes
         dict(bs=2 << 20, W=3, cut=4096 + 512, boff=512, doff=4 << 20, big=True),
         # windows deep inside the block map (index thresholds such as 1024 / 4096 are typical chunk and cache sizes)
@@ -97,7 +101,7 @@ def run_case(case, ctx):
     bs = g["bs"]
     size = len(states) * bs - g["cut"]
     buf = bootstrap.bufsize()
-    img = B.build(states, slots, bs, size, g["boff"], g["doff"])
+    img = B.build(states, slots, bs, size, g["boff"], g["doff"], image_type=g.get("itype", 1))
     disk = B.model(states, bs, size)
     ctx.model([g, states, slots])
     ctx.executions += 1
